@@ -254,7 +254,7 @@ def run(ck, ctx):
             ck.ob("R02.4", f"accessor {acc}() returns {want!r}", Un.definite(u) and u.ang == want.ang, rr.value,
                   f"RegionGeom.{acc}", f"derived unit {u!r}")
         report_conflicts(ck, "R02.4", uf, lambda fn: fn.startswith("RegionGeom."), "RegionGeom")
-        ck.floor("R02.4", uf.trig_sites, 60, "trigonometric / angle-conversion call sites")
+        ck.floor("R02.4", uf.trig_sites, 30, "trigonometric / angle-conversion call sites")
         ck.info["trig_sites"] = uf.trig_sites
     ck.guard(units, "R02.4")
 
